@@ -1775,8 +1775,19 @@ func (env *LEnv) call(ctx context.Context, fun *LVal, args *LVal) *LVal {
 		// builtin returns.
 		prev := env.evalCtx
 		env.evalCtx = ctx
+		// A builtin that panics unwinds past the restore below (the panic is
+		// recovered further up, in eval): without this the context stays on
+		// env -- the root environment for a top-level form -- and, once the
+		// host cancels it, later context-less evaluations fail.
+		restored := false
+		defer func() {
+			if !restored {
+				env.evalCtx = prev
+			}
+		}()
 		val := fn(env, list)
 		env.evalCtx = prev
+		restored = true
 		if val == nil {
 			return env.Errorf("internal error: builtin %s returned nil", env.GetFunName(fun))
 		}
